@@ -86,6 +86,56 @@ def space(rng):
                                        extra=extra, fmt=fmt, fwd=fwd, r_eq_d=rng.random() < 0.34)
 
 
+def m_bounds_part(chk, tuc):
+    """-M and the bounds list: every list of 1-3 bounds with sides in {open, 1, 2, 3, -1} (+ formatted variants) — rejected up front
+    iff not strictly ascending (a negative side, a bound starting at or before the end of the previous one, anything after an open
+    right side); `-M 1 -d - -f LIST` on the empty input and on a probe of 4 fields"""
+    from gen import bound_text, wellformed_bound
+    rng = chk.rng
+    sd = [None, 1, 2, 3, -1]
+    one = [(l, r) for l in sd for r in sd if wellformed_bound(l, r)]
+    lists = [[b] for b in one] + [[a, b] for a in one for b in one] + [[a, b, c] for a in one for b in one for c in one]
+    if chk.tier == "quick":
+        lists = lists[: len(one) + len(one) ** 2] + rng.sample(lists[len(one) + len(one) ** 2:], 1500)
+
+    def ascending(bs):
+        prev = 0
+        for l, r in bs:
+            lo = 1 if l is None else l
+            if lo < 1 or (r is not None and r < 1) or lo <= prev:
+                return False
+            prev = float("inf") if r is None else r
+        return True
+    probe_in = b"a-b-c-d\na-b-c-d\n"
+    cases, metas = [], []
+    for bs in lists:
+        txt = ",".join(bound_text(l, r, None, l == r and rng.random() < 0.5) for l, r in bs)
+        if rng.random() < 0.2:
+            txt = "".join("{" + bound_text(l, r, None, l == r) + "}" + rng.choice(["", "x", "+"]) for l, r in bs)
+        argv = ["-M", "1", "-d", "-", "-f", txt]
+        rng.shuffle(argv) if False else None
+        if rng.random() < 0.5:
+            argv = ["-f", txt, "-d", "-", "-M", "64"]
+        cases.append((argv, b""))
+        cases.append((argv, probe_in))
+        metas.append((argv, bs))
+    res = run_cli(tuc, cases)
+    for k, (argv, bs) in enumerate(metas):
+        (st0, out0), (st1, out1) = res[2 * k], res[2 * k + 1]
+        chk.evaluations += 1
+        chk.nontrivial_add(("M-bounds", tuple(argv)))
+        asc = ascending(bs)
+        chk.count("M-bounds:" + ("ascending" if asc else "not-ascending"))
+        rejected = st0 == "1" and st1 == "1" and out0 == b"" and out1 == b""
+        accepted = st0 == "0" and st1 == "0" and out1 != b""
+        replay = {"argv": argv, "probe_hex": probe_in.hex(), "exit_on_empty_input": st0, "exit_on_probe": st1, "stdout_on_probe_hex": out1.hex(),
+                  "statement_says": "accept" if asc else "reject (bounds not strictly ascending)"}
+        if asc and not accepted:
+            chk.report_oracle("-M refuses (or fails on) a strictly ascending bounds list", replay)
+        if not asc and not rejected:
+            chk.report_oracle("-M with bounds that are not strictly ascending (reordered, repeated, sharing a field, negative) is not rejected up front", replay)
+
+
 def flags_case(F):
     c = {"kind": "decide", "mode": F["mode"] if F["mode"] != "dflt" else "dflt", "d": F["d"], "r": F["r"], "M": F["M"]}
     for k in ("e", "g", "p", "s", "z", "m", "j", "nj", "json", "t", "fb", "fmt", "fwd", "extra"):
@@ -119,7 +169,9 @@ def run(chk):
     chk.rule = ("option sets over {-f|-c|-b|-l|none} × -d {absent, 1-byte, 2-byte} × -r {absent, 1-byte, 2-byte} × -M {absent, 0, 1} × "
                 "subsets of {-e,-g,-p,-s,-z,-m,-j,--no-join,--json,-t,--fallback-oob, an unknown argument} × bounds shapes {ascending, "
                 "reordered, field-sharing, formatted}; quick: seeded sample, thorough: the whole space; each set run on the empty input and "
-                "on a derived probe; plus random re-orderings of the option groups; non-trivial = at least two options given")
+                "on a derived probe; plus random re-orderings of the option groups; plus -M with every list of 1-3 bounds over sides {open,1,2,3,-1} "
+                "(quick: all lists of ≤ 2 and 1500 of 3), accepted iff strictly ascending; plus random argument vectors in every spelling pico_args accepts (glued, `=`, quoted values, flag "
+                "clusters, option-like values, repeated / unknown arguments) against the model of pico_args + parse_args; non-trivial = at least two options given")
     cli_cases = []
     for F in sets:
         argv = [a for g in groups(F) for a in g]
@@ -183,6 +235,9 @@ def run(chk):
             agrees = dont_care or st1 == "0"
         if not agrees:
             chk.report_tie("K-cli: the binary's decision differs from the model's `decision`", dict(replay, component="K-cli"))
+    m_bounds_part(chk, tuc)
+    from cases import argv_stream
+    argv_stream(chk, tuc, 20000 if chk.tier == "quick" else 200000)
     # the wiring parse_args does for accepted sets (default delimiter / bounds, implied join, -c / --json replacement,
     # line-mode delimiter, --fallback-oob forms): binary stdout + status vs the model
     cli_roundtrip(chk, tuc, 3000 if chk.tier == "quick" else 40000, want=lambda a: len(a) >= 1)
